@@ -11,12 +11,13 @@ Definition close (tol a b : Qc) : bool := Qcleb (Qcabs (a - b)%Qc) (tol * (1 + Q
 
 (* --- RewardScaler.update over a history; impl state after each batch --- *)
 Definition scaler_obs := (Z * Q * Q)%type.   (* count, mean, M2 reported by the implementation *)
-Fixpoint scaler_steps (tol : Qc) (k : Z) (st : nat * Qc * Qc) (h : list (list Q * scaler_obs)) : Z :=
+(* a batch is a tensor given as the list of its rows along the leading dimension *)
+Fixpoint scaler_steps (tol : Qc) (k : Z) (st : nat * Qc * Qc) (h : list (list (list Q) * scaler_obs)) : Z :=
   match h with
   | [] => 0%Z
   | (b, (ic, im, iM)) :: rest =>
       match st with (c, m, M2) =>
-        let st' := gen_scaler_update QcF c m M2 (map toQc b) in
+        let st' := gen_scaler_update QcF c m M2 (map (map toQc) b) in
         match st' with (c', m', M2') =>
           if negb (Z.eqb (Z.of_nat c') ic) then (1000 * k + 1)%Z
           else if negb (close tol (toQc im) m') then (1000 * k + 2)%Z
@@ -25,7 +26,7 @@ Fixpoint scaler_steps (tol : Qc) (k : Z) (st : nat * Qc * Qc) (h : list (list Q 
         end
       end
   end.
-Definition check_scaler (c : Q * list (list Q * scaler_obs)) : Z :=
+Definition check_scaler (c : Q * list (list (list Q) * scaler_obs)) : Z :=
   scaler_steps (toQc (fst c)) 1%Z (0%nat, 0%Qc, 0%Qc) (snd c).
 
 (* --- ExponentialBaseline over a history of reward batches --- *)
